@@ -65,8 +65,8 @@ func (b *zzBeacon) LastSlotOfSyncPeriod(period uint64) phase0.Slot {
 func (b *zzBeacon) GetNetwork() beacon.Network                { return beacon.Network{} }
 func (b *zzBeacon) GetBeaconNetwork() spectypes.BeaconNetwork { return spectypes.PraterNetwork }
 
-// zzHashDataRoot: collision-free stand-in for sha256 over consensus values (injective on len<=31).
-func zzHashDataRoot(data []byte) ([32]byte, error) {
+// zzValHashDataRoot: collision-free stand-in for sha256 over consensus values (injective on len<=31).
+func zzValHashDataRoot(data []byte) ([32]byte, error) {
 	var r [32]byte
 	r[0] = byte(len(data))
 	copy(r[1:], data)
@@ -101,7 +101,7 @@ func zzValidator(now int64) *messageValidator {
 	}
 }
 
-func zzInCommittee(sh *ssvtypes.SSVShare, id spectypes.OperatorID) bool {
+func zzValInCommittee(sh *ssvtypes.SSVShare, id spectypes.OperatorID) bool {
 	for _, o := range sh.Committee {
 		if o.OperatorID == id {
 			return true
@@ -253,7 +253,7 @@ func ZZHarnessConsensus() {
 	zzAssert(nsig >= 1, "has-signers")
 	for i, s := range signers {
 		zzAssert(s != 0, "signer-nonzero")
-		zzAssert(zzInCommittee(share, s), "signer-in-committee")
+		zzAssert(zzValInCommittee(share, s), "signer-in-committee")
 		if i > 0 {
 			zzAssert(signers[i-1] < s, "signers-sorted-distinct")
 		}
@@ -297,7 +297,7 @@ func ZZHarnessConsensus() {
 	}
 	// full data must match the root when it is attached to a type that carries it
 	if len(fullData) != 0 && (t == uint64(specqbft.ProposalMsgType) || t == uint64(specqbft.RoundChangeMsgType) || (t == uint64(specqbft.CommitMsgType) && nsig > 1)) {
-		hr, _ := zzHashDataRoot(fullData)
+		hr, _ := zzValHashDataRoot(fullData)
 		zzAssert(hr == root, "fulldata-hashes-to-root")
 	}
 	// justifications
@@ -435,7 +435,7 @@ func ZZHarnessPartial() {
 		okType = pt == spectypes.VoluntaryExitPartialSig
 	}
 	zzAssert(okType, "partial-type-matches-role")
-	zzAssert(signer != 0 && zzInCommittee(share, signer), "partial-signer-in-committee")
+	zzAssert(signer != 0 && zzValInCommittee(share, signer), "partial-signer-in-committee")
 	zzAssert(nmsg >= 1, "partial-has-messages")
 	zzAssert(len(msg.Signature) == 96 && msg.Signature[0] != 0, "partial-signature-format")
 	zzAssert(sigOK, "partial-signature-verified")
